@@ -51,7 +51,31 @@ def replay_add_many(ctx, cases, rng, count):
         done += 1
 
 
+def _worker(task):
+    case, seed, reps = task
+    rng = np.random.default_rng(seed)
+    out = []
+    for rep in range(reps):
+        is_eigh = bool(rng.integers(2))
+        use_stab = bool(rng.integers(2))
+        sp = int(rng.choice([0, 0, -20, 20, 40]))
+        pad = rng.random() < 0.15
+        order_ = [None, 'F', 'C'][int(rng.integers(3))]
+        try:
+            msg = RD.replay_truncate(None, case, rng, is_eigh, use_stab, scale_pow=sp, pad=pad, order=order_)
+        except Exception as ex:
+            msg = 'truncate raised %s: %s' % (type(ex).__name__, ex)
+        reduced = any(a < b for o in case['outcomes'] for a, b in zip(o['ranks'], RD.input_ranks(case)))
+        sample = {'entries': case['ent'], 'T': case['T'], 'cap': case['cap'], 'outcomes': case['outcomes'][:2],
+                  'flags': {'is_eigh': is_eigh, 'use_stab': use_stab, 'scale_pow': sp}} if seed % 997 == 0 else None
+        out.append(('case', (case['ent'], case['T'], case['cap'], is_eigh, use_stab), reduced, sample))
+        if msg:
+            out.append(('viol', 'truncate:' + ('eigh' if is_eigh else 'svd'), msg, case))
+    return out
+
+
 def run(ctx):
+    from . import common
     ctx.rule = ('cases = (family member, threshold T+1/2, cap) emitted by TLC x (is_eigh, use_stab, symmetries); '
                 'distinct = (entries, T, cap, flags); non-trivial = at least one rank is actually reduced')
     ctx.assumptions = ['exact decisions on the distinct-last-index family and its symmetry orbit',
@@ -59,7 +83,7 @@ def run(ctx):
                        'rounding floor: thresholds are >= 1/2 in units where entries are >= 1']
     cfgs = ['Rounding_c02_q.cfg'] if ctx.tier == 'quick' else ['Rounding_c02_q.cfg', 'Rounding_c02_t1.cfg', 'Rounding_c02_t2.cfg', 'Rounding_c02_t3.cfg']
     rng = np.random.default_rng(ctx.seed)
-    budget = 7000 if ctx.tier == 'quick' else 10**9
+    budget = 7000 if ctx.tier == 'quick' else 400000
     for cfg in cfgs:
         cases = RD.emit(ctx, cfg, 'Rounding rtl: ' + cfg, workers=16)
         order = rng.permutation(len(cases))
@@ -67,19 +91,6 @@ def run(ctx):
             cases = [ctx.replay_filter['case']]
             order = [0]
         per = max(1, min(len(cases), budget // len(cfgs)))
-        for j in order[:per]:
-            case = cases[j]
-            for rep in range(1 if ctx.tier == 'quick' else 2):
-                is_eigh = bool(rng.integers(2))
-                use_stab = bool(rng.integers(2))
-                sp = int(rng.choice([0, 0, -20, 20, 40]))
-                pad = rng.random() < 0.15
-                order_ = [None, 'F', 'C'][int(rng.integers(3))]
-                msg = RD.replay_truncate(ctx, case, rng, is_eigh, use_stab, scale_pow=sp, pad=pad, order=order_)
-                reduced = any(a < b for o in case['outcomes'] for a, b in zip(o['ranks'], RD.input_ranks(case)))
-                ctx.case(key=(case['ent'], case['T'], case['cap'], is_eigh, use_stab), nontrivial=reduced,
-                         sample={'entries': case['ent'], 'T': case['T'], 'cap': case['cap'], 'outcomes': case['outcomes'][:2],
-                                 'flags': {'is_eigh': is_eigh, 'use_stab': use_stab, 'scale_pow': sp}})
-                if msg:
-                    ctx.violation('truncate:' + ('eigh' if is_eigh else 'svd'), msg, case=case)
+        tasks = [(cases[j], int(ctx.seed * 1000003 + j), 1 if ctx.tier == 'quick' else 2) for j in order[:per]]
+        common.pmap(ctx, _worker, tasks)
         replay_add_many(ctx, [cases[j] for j in order], rng, 150 if ctx.tier == 'quick' else 1500)
